@@ -2,6 +2,7 @@ import Refine.Model.Dist
 import Refine.Lemmas.Dist
 import Refine.Lemmas.Comm
 import Refine.Props.C17
+import Refine.Props.C06
 
 /-!
   The world-level unrolling of `syncGlobals` (C06 headline): under the id invariant the loop-by-loop model of
@@ -333,5 +334,90 @@ theorem sliceStep_eq (w : World NodeIds) (h : ElimHyp w) (a0 a1 : Nat) (h01 : a0
               rw [← hP1]
               exact later_not_in_Pfx w h.nodup a1 i hge hi g hg)
         rw [← hP1] at this; exact this
+
+theorem countsOf_length (w : World NodeIds) : (countsOf w).length = w.length := by simp [countsOf]
+
+theorem elimLoop_eq (w : World NodeIds) (h : ElimHyp w) (chunk : Int) : ∀ (fuel a0 : Nat),
+    a0 ≤ w.length → w.length ≤ a0 + fuel →
+    elimLoop (countsOf w) chunk fuel a0 (loopState w a0) = loopState w w.length := by
+  intro fuel
+  induction fuel with
+  | zero =>
+    intro a0 h1 h2
+    have : a0 = w.length := by omega
+    subst this
+    rfl
+  | succ f ih =>
+    intro a0 h1 h2
+    unfold elimLoop
+    rw [countsOf_length]
+    by_cases hlt : a0 < w.length
+    · simp only [hlt, if_true]
+      have hp := Refine.Props.C06.active_parts_progress (countsOf w) chunk a0 (by rw [countsOf_length]; exact hlt)
+      rw [countsOf_length] at hp
+      rw [sliceStep_eq w h a0 _ hp.1 hp.2]
+      exact ih _ hp.2 (by omega)
+    · simp only [hlt, if_false]
+      have : a0 = w.length := by omega
+      subst this
+      rfl
+
+theorem Pfx_all (w : World NodeIds) : Pfx w w.length = (Us w).flatten := by
+  unfold Pfx
+  rw [List.take_of_length_le (by simp [Us])]
+
+theorem elim_nil (g : Int) : elim [] g = g := by simp [elim, cntLt]
+
+theorem loopState_zero (w : World NodeIds) :
+    loopState w 0 = w.map fun s => ⟨s.keys, sortGlob (unusedArr s)⟩ := by
+  unfold loopState
+  apply List.ext_getElem
+  · simp
+  · intro i h1 h2
+    have hP : Pfx w 0 = [] := by simp [Pfx]
+    simp only [List.getElem_mapIdx, List.getElem_map, hP, Nat.not_lt_zero, if_false]
+    have : ∀ l : List Int, l.map (elim []) = l := by
+      intro l; rw [List.map_congr_left (g := id)]; simp; intro g _; exact elim_nil g
+    rw [this, this]; rfl
+
+theorem countsOf_eq_lens (w : World NodeIds) : countsOf w = Refine.Lemmas.Comm.lensI (Us w) := by
+  simp [countsOf, Us, Refine.Lemmas.Comm.lensI, sortedUnused_length]
+
+theorem zip_keys {α : Type} (f : Int → Int) (l : List (Int × α)) :
+    (((l.map (·.1)).map f).zip l).map (fun ke => (ke.1, ke.2.2)) = l.map fun e => (f e.1, e.2) := by
+  induction l with
+  | nil => rfl
+  | cons x xs ih => simp only [List.map_cons, List.zip_cons_cons, ih]
+
+/-- closed form of `ref_node_eliminate_unused_globals` -/
+def elimClosed (w : World NodeIds) : World NodeIds :=
+  w.map fun s =>
+    ({ s with sorted := s.sorted.map fun (e : Int × Nat) => (elim (Us w).flatten e.1, e.2),
+              global := writeBack s.global (s.sorted.map fun (e : Int × Nat) => (elim (Us w).flatten e.1, e.2)),
+              unusedStk := [] }).initNGlobal (s.oldN - ((Us w).flatten.length : Int))
+
+theorem eliminateUnused_eq (w : World NodeIds) (h : ElimHyp w) : eliminateUnused w = elimClosed w := by
+  unfold eliminateUnused
+  simp only []
+  have hcounts : headCounts (Refine.Model.Comm.allgather RefType.int (w.map fun s => (s.nUnused : Int)))
+      = countsOf w := by
+    rw [Refine.Props.C17.allgather_spec RefType.int rfl]
+    unfold countsOf headCounts
+    cases w with
+    | nil => rfl
+    | cons s t => rfl
+  rw [hcounts, ← loopState_zero, elimLoop_eq w h _ _ 0 (Nat.zero_le _) (by omega)]
+  have htot : isum (countsOf w) = ((Us w).flatten.length : Int) := by
+    rw [isum_eq_sum, countsOf_eq_lens, Refine.Lemmas.Comm.lensI_sum]
+  rw [htot]
+  unfold elimClosed
+  apply List.ext_getElem
+  · simp [loopState]
+  · intro i h1 h2
+    have hi : i < w.length := by simpa using h2
+    simp only [List.getElem_map, List.getElem_zip, loopState, List.getElem_mapIdx, hi, if_true, Pfx_all,
+      List.reverse_nil]
+    have hk : (w[i]).keys = (w[i]).sorted.map (·.1) := rfl
+    rw [hk, zip_keys]
 
 end Refine.Lemmas.DistSync
